@@ -78,6 +78,12 @@ m("trim-keeps-one", "_snapshot/collection_value.py", "            if old_value n
 m("minmax-trim-halfway", "_snapshot/min_max_value.py", "        new_token = value_to_token(self._new_value)\n        if not self.cmp(self._old_value, self._new_value):", "        if self.cmp(self._old_value, self._new_value) and self._old_value != self._new_value and isinstance(self._old_value, int) and isinstance(self._new_value, int):\n            self._new_value = (self._old_value + self._new_value) // 2 if abs(self._old_value - self._new_value) > 1 else self._new_value\n        new_token = value_to_token(self._new_value)\n        if not self.cmp(self._old_value, self._new_value):", ["C08", "C05"], "trim of an int bound moves only halfway: a second run trims again")
 
 
+# ---- C09
+m("seq-update-drops-insert-when-deleting", "_change.py", '    if new_code or deleted or elements == 1 or len(parent_elements) <= 1:\n        code = ", ".join(new_code)', '    if new_code or deleted or elements == 1 or len(parent_elements) <= 1:\n        code = ", ".join([] if deleted and len(parent_elements) > 2 else new_code)', ["C09", "C05"], "an append is lost when the last element is deleted in the same edit (only when categories are applied together)")
+m("virtual-dict-trim-then-create", "_snapshot/dict_value.py", "                len(self._old_value),\n                new_code,", "                len(self._new_value),\n                new_code,", ["C09", "C05", "C18"], "DictInsert position computed from the new value (differs once keys were trimmed)")
+m("collection-fix-position", "_snapshot/collection_value.py", "                position=len(self._old_value),", "                position=len([v for v in self._old_value if v in self._new_value]),", ["C09", "C05", "C18"], "`in` append position ignores members that are only trimmed in another run")
+
+
 def make_copy(mut):
     base = os.environ.get("VERIF_TMP") or ("/dev/shm" if os.path.isdir("/dev/shm") else tempfile.gettempdir())
     d = Path(tempfile.mkdtemp(prefix="mutant-", dir=base))
